@@ -398,7 +398,8 @@ def main(tier, seed):
         isos = [c[1] for c in comp]
         n = len(isos)
         has_model = any(c[2] is None for c in comp)
-        cfg = f"two-branch point isotherms, {n} components"
+        stored = {c[2] for c in comp if c[2] is not None}
+        cfg = "two-branch point isotherms (desorption points stored " + ("ascending" if stored == {True} else "descending" if stored == {False} else "either way") + f"), {n} components"
         variants = [({}, "ads"), ({"branch": "ads"}, "ads")] + ([] if has_model else [({"branch": "des"}, "des")])
         pts = [[1.0, 2.0, 0.5][:n], [0.2, 0.1, 3.0][:n]] + ([[5.0, 0.5, 1.0][:n]] if thorough else [])
         results = {}
